@@ -202,6 +202,59 @@ class MDT(dt.datetime):
         return f"MDT(wall={self.wall}, off={self.off}, fold={self._fold})"
 
 
+class TD:
+    """Model timedelta (whole seconds, symbolic): what a store implementation may add to / subtract from a datetime."""
+
+    def __init__(self, days=0, seconds=0, microseconds=0, milliseconds=0, minutes=0, hours=0, weeks=0):
+        self.s = days * 86400 + seconds + microseconds // 1000000 + milliseconds // 1000 + minutes * 60 + hours * 3600 + weeks * 604800
+
+    def total_seconds(self):
+        return self.s
+
+    def __neg__(self):
+        return TD(seconds=-self.s)
+
+    def __add__(self, o):
+        if isinstance(o, TD):
+            return TD(seconds=self.s + o.s)
+        if isinstance(o, MDT):
+            return o.__add__(self)
+        return NotImplemented
+
+    __radd__ = __add__
+
+
+def _secs(td):
+    if isinstance(td, TD):
+        return td.s
+    if isinstance(td, dt.timedelta):
+        return td.days * 86400 + td.seconds
+    return None
+
+
+def _mdt_add(self, td):
+    s_ = _secs(td)
+    if s_ is None:
+        return NotImplemented
+    # datetime arithmetic is wall-clock arithmetic: tzinfo is kept, fold is reset, the value no longer "comes from" an instant
+    return MDT(self.wall + s_, self.off, 0, None)
+
+
+def _mdt_sub(self, o):
+    if isinstance(o, MDT):
+        a, b_ = self._key(o, True)
+        return TD(seconds=a - b_)
+    s_ = _secs(o)
+    if s_ is None:
+        return NotImplemented
+    return MDT(self.wall - s_, self.off, 0, None)
+
+
+MDT.__add__ = _mdt_add
+MDT.__radd__ = _mdt_add
+MDT.__sub__ = _mdt_sub
+
+
 def naive_local(u):
     return MDT(local(u), None, fold_of(u), born=u)
 
@@ -216,6 +269,10 @@ MTIMES = {}
 
 class _PathStub:
     @staticmethod
+    def exists(path):
+        return os.fspath(path) in MTIMES
+
+    @staticmethod
     def getmtime(path):
         p = os.fspath(path)
         if p not in MTIMES:
@@ -223,8 +280,23 @@ class _PathStub:
         return MTIMES[p]
 
 
+class _StatResult:
+    def __init__(self, t):
+        self.st_mtime = t
+        self.st_mtime_ns = t * 1000000000
+        self.st_size = 0
+
+
 class _OsStub:
     path = _PathStub()
+
+    @staticmethod
+    def stat(path, *a, **k):
+        return _StatResult(_PathStub.getmtime(path))
+
+    @staticmethod
+    def fspath(path):
+        return os.fspath(path)
 
     @staticmethod
     def remove(path):
@@ -250,7 +322,7 @@ class _DatetimeStub:
 class _DtStub:
     datetime = _DatetimeStub
     timezone = dt.timezone
-    timedelta = dt.timedelta
+    timedelta = TD
 
 
 _REAL = (FS.os, FS.dt)
